@@ -36,17 +36,22 @@ partial def valueToJson : Value → Json
   | .blob b => obj [("b", Json.str b)]
   | .conv ty c v => obj [("c", Json.str ty), ("cast", Json.bool c), ("v", valueToJson v)]
 
+def nameJ : Option String → Json
+  | some n => Json.str n
+  | none => Json.null
+
 def colOfJson (j : Json) : ColDef :=
   { name := getStrD j "name", ty := getStrD j "ty", aff := getStrD j "aff", nullable := getBoolD j "nullable" true,
     default := optStr j "default", dval := valueOfJson (getObj j "dval"), pk := getBoolD j "pk",
-    index := getBoolD j "index" }
+    index := getBoolD j "index", unique := getBoolD j "unique",
+    computed := optStr j "computed", persisted := getBoolD j "persisted", computedMentions := getStrList j "computed_mentions" }
 
 def colToJson (c : ColDef) : Json :=
   obj [("name", Json.str c.name), ("ty", Json.str c.ty), ("aff", Json.str c.aff), ("nullable", Json.bool c.nullable),
        ("default", match c.default with
                    | some d => Json.str d
                    | none => Json.null),
-       ("pk", Json.bool c.pk)]
+       ("pk", Json.bool c.pk), ("computed", nameJ c.computed), ("persisted", Json.bool c.persisted)]
 
 def cmpOfString : String → Option CmpOp
   | ">" => some .gt | ">=" => some .ge | "<" => some .lt | "<=" => some .le | "=" => some .eq | "!=" => some .ne
@@ -62,9 +67,6 @@ def constOfJson (kind : ConstKind) (j : Json) : Const :=
     mentions := getStrList j "mentions", pred := predOfJson (getObj j "pred"),
     rtable := getStrD j "rtable", rcols := getStrList j "rcols" }
 
-def nameJ : Option String → Json
-  | some n => Json.str n
-  | none => Json.null
 
 def constToJson (c : Const) : Json :=
   obj [("name", nameJ c.name), ("cols", strs c.cols), ("text", Json.str c.text),
@@ -132,6 +134,7 @@ def opOfJson1 (j : Json) : Option BatchOp :=
   | "drop_constraint" => some (.dropConstraint (getStrD j "name"))
   | "create_index" => some (.createIndex (indexOfJson j))
   | "drop_index" => some (.dropIndex (getStrD j "name"))
+  | "table_comment" => some .tableComment
   | _ => none
 
 /-- an `existing_type_const` on alter_column / drop_column becomes the marker op in front of it -/
@@ -164,6 +167,8 @@ def failKindOfJson (j : Json) : FailKind :=
   | "systemexit" => .systemExit
   | "base" => .baseException
   | _ => .exception
+
+def prOfJson (j : Json) : List (List String) := (getArr j "partial_reordering").map asStrList
 
 def convOfJson (j : Json) : ConvTable :=
   (getArr j "convs").map (fun e => (getStrD e "ty", getBoolD e "cast", valueOfJson (getObj e "v"), valueOfJson (getObj e "out")))
@@ -206,7 +211,7 @@ def handle (op : String) (j : Json) : Option Json :=
         (match getObj j "copy_from_schema" with
          | .null => none
          | cf => some (schemaOfJson cf))
-        (failKindOfJson j)
+        (failKindOfJson j) (prOfJson j)
       some (obj [("recreated", Json.bool out.recreated), ("stmts", strs (out.trace.map stmtTok)),
                  ("outcome", errJson out.err), ("final", dbToJson out.final)])
   | "batch.spec10" =>
@@ -215,7 +220,7 @@ def handle (op : String) (j : Json) : Option Json :=
     | some ops =>
       match tblOfJson (getObj j "before"), tblOfJson (getObj j "after") with
       | some b, some a =>
-        let r := Spec.Batch.check10 (convOfJson j) (getStrD j "table") b ops a (getStrList j "tmp_like")
+        let r := Spec.Batch.check10 (convOfJson j) (getStrD j "table") b ops a (getStrList j "tmp_like") (prOfJson j)
         some (obj [("holds", Json.bool r.isEmpty), ("why", strs r)])
       | _, _ => some (obj [("holds", Json.bool false), ("why", strs ["schema: table missing after the batch"])])
   | "batch.spec11" =>
